@@ -214,3 +214,70 @@ def install(registry):      # noqa: F811
     _install4(registry)
     for k in range(0, 4):
         registry[f'sort:table{k}'] = (lambda I, name, k=k: fresh_table(I, name, k))
+
+
+def copy_vector_obj(v):
+    """A fresh vector object with the same abstract view (what Vector.copy() returns)."""
+    o = VObj(v.pycls, tag='vector')
+    o.fields.update(v.fields)
+    o.fields['_fp'] = NONE
+    o.fields['_wild'] = VBool(True)
+    return o
+
+
+def construct_table(I, cls, args, kwargs):
+    """Contract of Table(initial=(), ...) for a concrete number of column vectors (proved against
+    the real Table.__init__ by the contract `serif.table.Table.__init__`): ragged input raises
+    SerifValueError; otherwise a rectangular table of fresh copies that keep name, dtype, values."""
+    import serif.table
+    import serif.errors
+    init = args[0] if args else kwargs.get('initial', VTuple([]))
+    if isinstance(init, VDict):
+        raise Unsupported('Table(dict) inside a verified function')
+    if isinstance(init, VList) and getattr(init, 'gen', False):
+        init = VTuple(init.items)
+    if not isinstance(init, (VTuple, VList)) or not all(is_vector(x) for x in init.items):
+        raise Unsupported(f'Table({init!r})')
+    cols = init.items
+    t = VObj(serif.table.Table, tag='table')
+    if cols:
+        n0 = B.seq_len(I, cols[0].fields['_underlying']).t
+        for c in cols[1:]:
+            if not I.ex.choose(B.seq_len(I, c.fields['_underlying']).t == n0):
+                I.raise_(serif.errors.SerifValueError)
+    else:
+        n0 = z3.IntVal(0)
+    new_cols = [copy_vector_obj(c) for c in cols]
+    for c in new_cols:
+        c.fields['_wild'] = VBool(False)
+    name = args[2] if len(args) > 2 else kwargs.get('name', NONE)
+    t.fields.update({'_underlying': VTuple(new_cols), '_length': VInt(n0), '_dtype': NONE, '_name': name,
+                     '_display_as_row': VBool(False), '_column_map': VOpaque('column_map'), '_fp': NONE,
+                     '_fp_powers': NONE, '_wild': VBool(True), '_repr_rows': NONE})
+    return t
+
+
+_construct_vector0 = construct_vector
+
+
+def construct_vector(I, cls, args, kwargs):      # noqa: F811
+    """Vector(...) whose elements are vectors dispatches to Table when all lengths agree."""
+    init = args[0] if args else kwargs.get('initial', None)
+    if isinstance(init, VList) and getattr(init, 'gen', False):
+        init = VTuple(init.items)
+    if isinstance(init, (VTuple, VList)) and init.items and all(is_vector(x) for x in init.items):
+        n0 = B.seq_len(I, init.items[0].fields['_underlying']).t
+        same = z3.And([B.seq_len(I, c.fields['_underlying']).t == n0 for c in init.items[1:]] or [z3.BoolVal(True)])
+        if I.ex.choose(same):
+            return construct_table(I, cls, [init] + list(args[1:]), kwargs)
+        raise Unsupported('Vector of vectors of unequal length (nested vector)')
+    return _construct_vector0(I, cls, args, kwargs)
+
+
+_install5 = install
+
+
+def install(registry):      # noqa: F811
+    _install5(registry)
+    registry['construct:serif.vector.Vector'] = construct_vector
+    registry['construct:serif.table.Table'] = construct_table
